@@ -318,6 +318,8 @@ def _cmp_guard(a, b):
 
 
 K_LATER_JUNK = "flat-file-followed-by-later-stamped-corrupt-line-is-reopened"
+K_OTHER_ROOT_CAUSES = ("duplicate-record:flat-file-reopened-after-waiting-for-its-first-record",
+                       "lost-record:file-starts-at-timestamp-of-flat-predecessor")
 
 
 def oracle(files, inject, start, factor, la, trace, final):
@@ -326,7 +328,9 @@ def oracle(files, inject, start, factor, la, trace, final):
     duplicates, an older file replayed, wrong final map)."""
     bad, expected, delivered_at = _oracle(files, inject, start, factor, la, trace, final)
     if bad and inject and inject[2].endswith("+") and _flat(files[inject[0]]):
-        bad = [(K_LATER_JUNK, "symptoms: " + " || ".join("%s: %s" % b for b in bad))]
+        own = [b for b in bad if b[0] in K_OTHER_ROOT_CAUSES]          # explained by their own input pattern
+        rest = [b for b in bad if b[0] not in K_OTHER_ROOT_CAUSES]
+        bad = own + ([(K_LATER_JUNK, "symptoms: " + " || ".join("%s: %s" % b for b in rest))] if rest else [])
     return bad, expected, delivered_at
 
 
